@@ -1,6 +1,7 @@
 #!/bin/bash
 # Build the framework from files on disk only (offline): tables from /repo/src, Coq development, extraction, OCaml driver.
 cd "$(dirname "$0")"
-export PYTHONPATH=/repo/src PYTHONSAFEPATH=1 PYTHONHASHSEED=0 PYTHONDONTWRITEBYTECODE=1
+export VERIF_REPO=${VERIF_REPO:-/repo}
+export PYTHONPATH=$VERIF_REPO/src PYTHONSAFEPATH=1 PYTHONHASHSEED=0 PYTHONDONTWRITEBYTECODE=1
 mkdir -p .work evidence replays
 /venv/bin/python tools/build.py
